@@ -61,6 +61,7 @@ pub fn run(monitor: &str, ctx: &Ctx) -> Option<Report> {
         .map(|s| s.as_str())
         .or(property_of(monitor))?;
     let mut rep = Report::new(prop, monitor);
+    rep.floors_enabled = ctx.scale >= 0.2;
     match monitor {
         "c01-api" => c01::run_api(ctx, &mut rep),
         "c01-state" => c01::run_state(ctx, &mut rep),
